@@ -5,7 +5,7 @@ use fnv::FnvHasher;
 
 use crate::data_model::Row;
 use crate::execution::{ColumnProvider, ColumnScope, ExecutionError, ExecutionResult, ExpressionTreeHash, ResultRow};
-use crate::execution::column_providers::{HashMapOwnedKeyColumnProvider, SingleColumnProvider};
+use crate::execution::column_providers::{AggregateResultColumnProvider, HashMapOwnedKeyColumnProvider};
 use crate::execution::expression_execution::{EvaluationError, ExpressionExecutionEngine};
 use crate::execution::helpers::DistinctValues;
 use crate::helpers::IterExt;
@@ -333,9 +333,19 @@ impl AggregateExecutionEngine {
             column_names.push(aggregate.name.clone());
             let mut result_column = Vec::new();
 
-            let transform_value = |value: Value| {
+            // The expression around an aggregate can also use the columns of the group key (`MAX(x) + key`)
+            let transform_value = |group_key: &GroupKey, value: Value| {
                 if let Some(transform) = &aggregate.transform {
-                    let columns = SingleColumnProvider::new(ColumnScope::AggregationValue, "$value", &value);
+                    let mut group_key_columns = Vec::new();
+                    if let Some(group_by) = aggregate_statement.group_by.as_ref() {
+                        for (part, part_value) in group_by.iter().zip(group_key.0.iter()) {
+                            if let ExpressionTree::ColumnAccess(name) = part {
+                                group_key_columns.push((name.as_str(), part_value));
+                            }
+                        }
+                    }
+
+                    let columns = AggregateResultColumnProvider::new(&value, group_key_columns);
                     ExpressionExecutionEngine::new(&columns).evaluate(transform)
                 } else {
                     Ok(value)
@@ -350,12 +360,12 @@ impl AggregateExecutionEngine {
                     }
                 }
                 _ => {
-                    for subgroups in self.group_values.values() {
+                    for (group_key, subgroups) in self.group_values.iter() {
                         // A group without an entry for this aggregate got no (non-null) input for it.
                         let group_value = subgroups.get(&aggregate_index)
                             .cloned()
                             .unwrap_or_else(|| empty_aggregate_value(&aggregate.aggregate));
-                        result_column.push(transform_value(group_value)?);
+                        result_column.push(transform_value(group_key, group_value)?);
                     }
                 }
             }
